@@ -71,12 +71,18 @@ func runCount(c countCase) (key, msg string, nontrivial bool) {
 	}
 	want := m - c.Recv
 	atomic.StoreInt32(&armed, 1)
-	q.GetChannel() // wakes the loader
-	select {
-	case <-inHand:
-	case <-time.After(vlib.StallBudget()):
+	held := false
+	for begin := time.Now(); !held && time.Since(begin) < vlib.StallBudget(); {
+		q.GetChannel() // wakes the loader (consumes nothing)
+		select {
+		case <-inHand:
+			held = true
+		case <-time.After(time.Millisecond):
+		}
+	}
+	if !held {
 		atomic.StoreInt32(&armed, 0)
-		return "", "", false // the loader had nothing to move
+		return "", "", false // no loader pass moved anything: decided by the stranding checks, not here
 	}
 	got := make(chan int, 1)
 	go func() { got <- q.Count() }()
